@@ -29,6 +29,14 @@ Theorem c21_unfinished_can_move : forall i0 c0 ts sched,
 Proof. exact unfinished_can_move. Qed.
 Print Assumptions c21_unfinished_can_move.
 
+(* a fair schedule completes: 6 * n rounds of round-robin over n callers leave
+   every caller returned *)
+Theorem c21_fair_schedule_completes : forall i0 c0 ts,
+  c0 <> PcClosed ->
+  all_done (run (init_with i0 c0 ts) (rounds (6 * length ts) (length ts))) = true.
+Proof. exact fair_schedule_completes. Qed.
+Print Assumptions c21_fair_schedule_completes.
+
 (* the variant: every block executed decreases it *)
 Theorem c21_variant : forall s tid s', step s tid = Some s' -> measure s' < measure s.
 Proof. exact step_measure. Qed.
